@@ -343,6 +343,7 @@ func c04yamlWithAnchors(text string) (*docgen.N, error) {
 }
 
 func c04run(w *report.W) {
+	seamconfReport(w)
 	verifseam.OpenMaxLen = 3
 	defer func() { verifseam.OpenMaxLen = 0; verifseam.SetChooser(nil) }()
 	devBound, seamBound := 2, 1
